@@ -217,3 +217,50 @@ Theorem C04_slot_and_wrapper_abi :
     Some (EmitFnReaders.fp_abi (EmitFnShape.wrapper_fnptr f)).
 Proof. exact EmitFnShape.slot_and_wrapper_abi. Qed.
 Print Assumptions C04_slot_and_wrapper_abi.
+
+(** ** slot offsets of the EMITTED vftable struct (EmitVftLayout.v) *)
+From Coq Require Import List NArith ZArith Bool String Lia.
+From PyxisModel Require Import Base Sexp Grammar SemTypes Registry Sem SemLemmas FunctionLemmas
+     VftableLemmas RustLayout Emit WholeBuild EmitReaders EmitShape EmitLayout EmitFnReaders
+     EmitFnShape EmitVftLayout.
+Import ListNotations.
+Local Open Scope string_scope.
+Local Open Scope list_scope.
+Local Open Scope N_scope.
+
+
+Theorem C04_emitted_slot_offset : forall R R' fuel owner v fs vit items k f,
+  vftable_item R owner v fs = Some vit -> build_item R' fuel vit = Ok items ->
+  reg_ptr R' = reg_ptr R -> nth_error fs k = Some f ->
+  exists s rest efs ef noffs sz al,
+    items = s :: rest /\ struct_fields s = Some efs /\ nth_error efs k = Some ef /\
+    slot_of_function owner f ef /\
+    emitted_struct_layout (map (type_sa R') (slot_types owner fs)) s = Some (noffs, sz, al) /\
+    nth_error noffs k = Some (ef_name ef, N.of_nat k * reg_ptr R).
+Proof. exact vftable_item_emitted_slot. Qed.
+Print Assumptions C04_emitted_slot_offset.
+
+
+Theorem C04_emitted_declared_slot :
+  forall order ptr mods st0 st files p it0 gd td0 it r parent stm rest gfs j gf,
+  input_state ptr mods = Ok st0 -> collision_free (st_reg st0) ->
+  pyxis_resolve order ptr mods = BOk st -> write_all st = Ok files ->
+  reg_get (st_reg st0) p = Some it0 -> it_state it0 = Unresolved gd -> gi_inner gd = GIType td0 ->
+  reg_get (st_reg st) p = Some it -> it_state it = Resolved r ->
+  path_parent p = Some parent -> parent <> [] -> alookup parent (st_modules st0) <> None ->
+  gt_stmts td0 = stm :: rest -> gs_field stm = GVftable gfs ->
+  nth_error gfs j = Some gf ->
+  exists tname fs file items s efs noffs idxs positions e pos ef,
+    path_last p = Some tname /\
+    In (out_path parent, file) files /\ file_items file = Some items /\
+    find_struct (tname +++ "Vftable") items = Some s /\ struct_fields s = Some efs /\
+    emitted_struct_layout (map (type_sa (st_reg st)) (slot_types p fs)) s
+    = Some (noffs, N.of_nat (List.length fs) * ptr, ptr) /\
+    map fn_index gfs = map Some idxs /\ slot_plan idxs 0 = Some (positions, e) /\
+    nth_error positions j = Some pos /\
+    (forall i, fn_index gf = Some (Some i) -> pos = i) /\
+    nth_error efs (N.to_nat pos) = Some ef /\ ef_name ef = gf_name gf /\
+    fnptr_abi (ef_ty ef) <> None /\
+    nth_error noffs (N.to_nat pos) = Some (gf_name gf, pos * ptr).
+Proof. exact emitted_declared_slot_whole_build. Qed.
+Print Assumptions C04_emitted_declared_slot.
